@@ -141,29 +141,30 @@ def C13_2(ctx, facts):
         inner = [c for c in g.calls() if norm(c.decl or c.name).endswith("Service::call")]
         ok = all(g.must_pass(0, g.returns, {c.bb for c in inner})[0] for _ in [0]) and bool(inner)
         ctx.check(ok, "SetHostHeader::call|forwards|%s" % ("execute" if exe else "request"), "the request is always forwarded to the inner service", "a path does not forward the request", g.where())
-    f = facts.unit(facts.fn("service::host::set_host_header"))
+    # set_host_header in normal form (or_insert_with is expanded to the match on the header Entry it abbreviates; the value
+    # closure / helper is spliced in): the value is written only through VacantEntry::insert, on the Vacant edge of
+    # entry(HOST) - a caller-supplied Host is kept -, and it is built from uri.host() and get_non_default_port(uri).
+    f = facts.unit(facts.fn("service::host::set_host_header"), expand=True)
     ctx.touched(f)
     ent = [c for c in f.calls() if c.matches(r"HeaderMap.*::entry$")]
-    oiw = [c for c in f.calls() if c.matches(r"Entry.*::or_insert_with$|Entry.*::or_insert$")]
-    over = [c for c in f.calls() if c.matches(r"HeaderMap.*::(insert|append)$|Entry.*::insert$")]
-    ctx.check(bool(ent) and bool(oiw) and not over, "set_host_header|never-overrides", "the header is written with entry(HOST).or_insert_with(..): a caller-supplied Host is kept",
+    vins = [c for c in f.calls() if c.matches(r"VacantEntry.*::(insert|insert_entry|try_insert)$")]
+    over = [c for c in f.calls() if c.matches(r"HeaderMap.*::(insert|append|try_insert|try_append)$|OccupiedEntry.*::(insert|append|insert_mult)$|Entry.*::insert$") and c not in vins]
+    ctx.check(bool(ent) and bool(vins) and not over, "set_host_header|never-overrides", "the header is written only into a vacant entry(HOST): a caller-supplied Host is kept",
               "the Host header can be overwritten (%s)" % [norm(c.name) for c in over], f.where())
     for c in ent:
         ks = {str(r.desc) for r in f.roots(c.args[1], through_calls=False) if r.kind == "const"} | {str(const_of(c.args[1]))}
         ctx.check(any(k.endswith("header::HOST") for k in ks), "set_host_header|host-entry", "the entry is the HOST header", "entry key is %s" % sorted(ks), c.where())
-    for c in oiw:
-        ck = closure_arg_of(f, c, 1)
-        body = facts.fns.get(ck) if ck else None
-        if body is None:
-            ctx.undecided("set_host_header|value", "value closure not found", c.where())
-            continue
-        body = facts.unit(body, expand=True) if body.key in facts.fns else body
-        rets = facts.roots_up(body, {"l": 0, "p": []})
+    eb = {c.bb for c in ent}
+    vacant = lambda lab: lab.kind == "variant" and lab.variants == {"Vacant"} and any(r.kind == "call" and r.site.bb in eb for r in f.roots({"l": lab.place["l"], "p": []}, through_calls=False))
+    for c in vins:
+        g_, w_ = f.guarded(c.bb, vacant)
+        ctx.check(g_, "set_host_header|insert-only-if-vacant", "the value is inserted on the Vacant edge of the entry only", "the Host value can be inserted although a Host header exists", c.where(), f.path_desc(w_))
+        rets = f.roots(c.args[1])
         hs = [r for r in rets if r.kind == "call" and r.site.is_("http::Uri::host", "http::uri::Uri::host")]
         pt = [r for r in rets if r.kind == "call" and r.site.is_("service::host::get_non_default_port")]
         ctx.check(bool(hs) and bool(pt), "set_host_header|value-from-uri", "the value is built from uri.host() and get_non_default_port(uri)",
-                  "the header value does not derive from uri.host() / get_non_default_port: %s" % sorted(map(repr, sig(rets)))[:8], body.where())
-        ctx.check(any(r.kind == "call" and r.site.matches(r"HeaderValue.*::from_str$") for r in rets), "set_host_header|value-is-header", "built with HeaderValue::from_str", "value not built by from_str", body.where())
+                  "the header value does not derive from uri.host() / get_non_default_port: %s" % sorted(map(repr, sig(rets)))[:8], c.where())
+        ctx.check(any(r.kind == "call" and r.site.matches(r"HeaderValue.*::from_str$") for r in rets), "set_host_header|value-is-header", "built with HeaderValue::from_str", "value not built by from_str", c.where())
     # get_non_default_port as a decision table: abstract evaluation of its (expanded) body under every scenario
     # (port in {absent, 443, 80, other} x scheme secure / not), whatever shape the code has (tuple match, `?` + comparison ...)
     p = facts.unit(facts.fn("service::host::get_non_default_port"), expand=True)
